@@ -208,13 +208,18 @@ Section Session.
       - destruct (unbound_publish o pb Epb) as (pb' & U1 & U2 & U3 & U4 & U5 & U6). exists pb'. splits; auto; try congruence; try (intros p; rewrite U6; discriminate).
       - rewrite Epb in K3. destruct (op_pid o); cbn in K3; eexists; (split; [exact K3|]); cbn; splits; auto; intros p; rewrite K2; discriminate. }
     unfold DeliveryWireDefs.J in *.
-    destruct (g_ph g) as [| |pid d|pid|pid|pid|pid|pid|] eqn:Eph.
+    destruct (g_ph g) as [| |pid d|pid|pid|pid|pid|pid| |] eqn:Eph.
     { (* not a QoS 1/2 publish *)
       assert (Hg : forall o', getop s' i = Some o' -> pubq (op_packet o') = false).
       { intros o' Ho'. destruct (Hop o' Ho') as (o & Ho & [(_ & _ & -> & _)|[(_ & [->| ->])|(_ & _ & _ & _ & Hp)]]);
           [eapply HJ; exact Ho|eapply HJ; exact Ho|rewrite unbound_pubq; eapply HJ; exact Ho|].
         rewrite Hp. specialize (HJ o Ho). destruct (op_pid o); destruct (op_packet o); cbn in *; auto. }
       exact Hg. }
+    9:{ (* handed to the encoder, but no QoS 1/2 publish *)
+      destruct HJ as [Hlt HJ]. cbn [sess_ph g_ph]. split; [fold s'; lia|].
+      intros o' Ho'. destruct (Hop o' Ho') as (o & Ho & [(_ & _ & -> & _)|[(_ & [->| ->])|(_ & _ & _ & _ & Hp)]]);
+        [eapply HJ; exact Ho|eapply HJ; exact Ho|rewrite unbound_pubq; eapply HJ; exact Ho|].
+      rewrite Hp. specialize (HJ o Ho). destruct (op_pid o); destruct (op_packet o); cbn in *; auto. }
     all: destruct HJ as [Hlt HJ]; unfold DeliveryWireDefs.JP in *; cbn [g_sub g_ph g_sp].
     all: destruct sp; cbn [sess_ph].
     all: (split; [fold s'; lia|]); intros o' Ho'; destruct (Hop o' Ho') as (o & Ho & Hc); destruct (HJ o Ho) as (pb & Epb & Hq & Hn & HP);
@@ -261,8 +266,9 @@ Section Session.
     set (f := fun o0 : op => o0 <| op_pubrel := Some (Pubrel (default_ack (ack_pid a))) |>).
     set (s' := s <| s_ops := update i f (s_ops s) |> <| s_hq := s_hq s ++ [i] |>).
     assert (Ho' : getop s' i = Some (f o)) by (unfold getop; cbn; apply lookup_update_eq; exact Eo).
-    unfold DeliveryWireDefs.J in *. destruct (g_ph g) as [| |pid d|pid|pid|pid|pid|pid|] eqn:Eph.
+    unfold DeliveryWireDefs.J in *. destruct (g_ph g) as [| |pid d|pid|pid|pid|pid|pid| |] eqn:Eph.
     { specialize (HJ o Eo). rewrite Epb in HJ. cbn in HJ. rewrite Eq in HJ. discriminate. }
+    9:{ destruct HJ as [_ HJ]. specialize (HJ o Eo). rewrite Epb in HJ. cbn in HJ. rewrite Eq in HJ. discriminate. }
     all: destruct HJ as [Hlt HJ]; destruct (HJ o Eo) as (pb0 & E0 & Hq & Hn & HP); rewrite Epb in E0; inversion E0; subst pb0;
       unfold DeliveryWireDefs.PJ in HP; rewrite Eph in HP.
     (* the phases in which no publish of i is pending *)
@@ -280,7 +286,7 @@ Section Session.
   Qed.
 
   Theorem pubrec_ok (s : state) g a :
-    pubrel_target s a = Some i -> J s g -> match g_ph g with GPend pid | GRel pid => ack_pid a = pid | GAbs => True | _ => False end.
+    pubrel_target s a = Some i -> J s g -> match g_ph g with GPend pid | GRel pid => ack_pid a = pid | _ => False end.
   Proof.
     unfold InboundLoop.pubrel_target. destruct (pre_connack s); [discriminate|].
     destruct (lookup (ack_pid a) (s_ppub s)) as [id|] eqn:El; [|discriminate].
@@ -288,7 +294,10 @@ Section Session.
     destruct (op_packet o) as [ | |pb| | | | | | | | | | | | ] eqn:Epb; try discriminate.
     destruct (pub_qos pb =? 2) eqn:Eq; cbn [andb]; [|discriminate]. destruct (128 <=? ack_rc a); cbn [negb]; [discriminate|].
     intros H HJ. inversion H; subst id. apply lookup_In in El.
-    unfold DeliveryWireDefs.J in HJ. destruct (g_ph g) as [| |pid d|pid|pid|pid|pid|pid|] eqn:Eph; try exact I.
+    apply N.eqb_eq in Eq.
+    unfold DeliveryWireDefs.J in HJ. destruct (g_ph g) as [| |pid d|pid|pid|pid|pid|pid| |] eqn:Eph.
+    1:{ specialize (HJ o Eo). rewrite Epb in HJ. cbn in HJ. rewrite Eq in HJ. discriminate. }
+    9:{ destruct HJ as [_ HJ]. specialize (HJ o Eo). rewrite Epb in HJ. cbn in HJ. rewrite Eq in HJ. discriminate. }
     all: destruct HJ as [_ HJ]; destruct (HJ o Eo) as (pb0 & _ & _ & _ & HP); unfold DeliveryWireDefs.PJ in HP; rewrite Eph in HP.
     all: try (destruct HP as (P1 & _); apply P1; exact El).
     all: try exact HP.
